@@ -188,7 +188,8 @@ def one_case(ctx, rng, idx, mem, deadline, reconnect=False):
                 # a response that has no body by definition (to HEAD, 204, 304): no-body semantics belong to the application,
                 # so it produces none -- with or without a Content-Length -- and the connection must stay usable
                 spec = hg.gen_appspec(rng, rid, shapes=("empty", "empty-cl0"),
-                                      statuses=[s for s in sorted(hg.REASONS)] if req["method"] == "HEAD" else [204, 304])
+                                      statuses=[s for s in sorted(hg.REASONS)] if req["method"] == "HEAD" else [204, 304],
+                                      bodiless="HEAD" if req["method"] == "HEAD" else True)
                 ctx.hit("bodiless_response_in_sequence")
             elif after_reconnect and rng.random() < 0.8:
                 # a body produced piece by piece over several server passes: it reaches the client in several receives
